@@ -7,6 +7,9 @@ import (
 	"fmt"
 	"math/big"
 	"sort"
+	"strconv"
+	"strings"
+	"time"
 
 	"github.com/NethermindEth/juno/core"
 	"github.com/NethermindEth/juno/core/crypto"
@@ -116,11 +119,86 @@ func (a *absState) commitment(version string, keepEmptySystem bool) (root, contr
 	if contractRoot.IsZero() && classRoot.IsZero() {
 		return felt.Zero, contractRoot, classRoot
 	}
-	ver, _ := core.ParseBlockVersion(version)
-	if classRoot.IsZero() && ver.LessThan(core.Ver0_14_0) {
+	if classRoot.IsZero() && pre014(version) {
 		return contractRoot, contractRoot, classRoot
 	}
 	return crypto.PoseidonElems(stateVersion0, &contractRoot, &classRoot), contractRoot, classRoot
+}
+
+// pre014 decides "protocol version < 0.14.0" independently of juno's version code.
+func pre014(version string) bool {
+	var v [3]int
+	for i, part := range strings.SplitN(version, ".", 4) {
+		if i >= 3 {
+			break
+		}
+		n, err := strconv.Atoi(part)
+		if err != nil {
+			break
+		}
+		v[i] = n
+	}
+	return v[0] == 0 && v[1] < 14
+}
+
+// model script: one snew + one sblock line per block; storage writes in descending key order
+// (the order core/state applies them), everything else in sorted order.
+func stateModelLines(c *StateCase, id int, purge bool) []string {
+	p := 0
+	if purge {
+		p = 1
+	}
+	lines := []string{fmt.Sprintf("snew %d %d", id, p)}
+	for n := range c.Blocks {
+		b := &c.Blocks[n]
+		pre := 0
+		if pre014(b.Version) {
+			pre = 1
+		}
+		var items []string
+		add := func(tag string, m map[string]string) {
+			ks := make([]string, 0, len(m))
+			for k := range m {
+				ks = append(ks, k)
+			}
+			sort.Strings(ks)
+			for _, k := range ks {
+				items = append(items, tag+":"+k+":"+m[k])
+			}
+		}
+		add("D", b.Declared)
+		add("M", b.Migrated)
+		add("P", b.Deployed)
+		add("R", b.Replaced)
+		add("N", b.Nonces)
+		addrs := make([]string, 0, len(b.Storage))
+		for a := range b.Storage {
+			addrs = append(addrs, a)
+		}
+		sort.Strings(addrs)
+		for _, a := range addrs {
+			ks := make([]*big.Int, 0, len(b.Storage[a]))
+			for k := range b.Storage[a] {
+				n, _ := new(big.Int).SetString(k, 16)
+				ks = append(ks, n)
+			}
+			sort.Slice(ks, func(i, j int) bool { return ks[i].Cmp(ks[j]) > 0 })
+			var kvs []string
+			for _, k := range ks {
+				kvs = append(kvs, k.Text(16)+"="+b.Storage[a][k.Text(16)])
+			}
+			items = append(items, "S:"+a+":"+strings.Join(kvs, ","))
+		}
+		lines = append(lines, strings.TrimSpace(fmt.Sprintf("sblock %d %d %s", id, pre, strings.Join(items, " "))))
+	}
+	return lines
+}
+
+// legacyPurges probes which treatment of an emptied system contract the deprecated backend of
+// the tree under test has (the Lean model follows the code: `purge` flag).
+func legacyPurges() bool {
+	t := runOldState(&StateCase{Blocks: []SBlock{{Version: "0.13.2", Storage: map[string]map[string]string{"1": {"7": "0"}}}}})
+	return t.Err == "" && len(t.Roots) == 1 && t.Roots[0] == "0"
 }
 
 // ---- running the real states --------------------------------------------------------------------
@@ -384,6 +462,30 @@ func genStateCase(r *lib.RNG, nBlocks int) *StateCase {
 	return c
 }
 
+// one contract with a large storage diff in a single block (> 100 updates: parallel hashing and
+// parallel node collection in core/state), then blocks that overwrite / zero a part of it
+func genLargeStateCase(r *lib.RNG) *StateCase {
+	ver := lib.Pick(r, versions)
+	keys := genKeyPool(r, 251, r.Range(130, 220))
+	st := map[string]string{}
+	for _, k := range keys {
+		v := genVal(r)
+		if v == "0" {
+			v = "3"
+		}
+		st[k.Text(16)] = v
+	}
+	c := &StateCase{Blocks: []SBlock{{Version: ver, Deployed: map[string]string{"abc": "c1a55"}, Storage: map[string]map[string]string{"abc": st}}}}
+	for n := 0; n < 3; n++ {
+		st2 := map[string]string{}
+		for i, m := 0, r.Range(5, 30); i < m; i++ {
+			st2[lib.Pick(r, keys).Text(16)] = genVal(r)
+		}
+		c.Blocks = append(c.Blocks, SBlock{Version: ver, Storage: map[string]map[string]string{"abc": st2}})
+	}
+	return c
+}
+
 // directed histories for the corner the generator reaches only sometimes
 func directedStateCases() []*StateCase {
 	var out []*StateCase
@@ -457,7 +559,11 @@ func deepCopyState(c *StateCase) *StateCase {
 	return &out
 }
 
+var legacyPurgeVariant bool
+
 func checkStateCases(f lib.Flags, res *lib.Result, drv *lib.Driver, cases []*StateCase, family string) {
+	t0 := time.Now()
+	defer func() { res.HitN("ms:"+family, int(time.Since(t0).Milliseconds())) }()
 	type outcome struct {
 		nw, old   trace
 		want, alt []string
@@ -474,8 +580,49 @@ func checkStateCases(f lib.Flags, res *lib.Result, drv *lib.Driver, cases []*Sta
 		o.want, o.alt = specStateTrace(c)
 		outs[i] = o
 	})
+	// model answers (new backend: purge; deprecated backend: as probed on the tree under test)
+	var answers [2][]string
+	var offs []int
+	if drv != nil {
+		for v, purge := range []bool{true, legacyPurgeVariant} {
+			var all []string
+			offs = offs[:0]
+			for i, c := range cases {
+				offs = append(offs, len(all))
+				all = append(all, stateModelLines(c, i%500, purge)...)
+			}
+			a, err := drv.AskAll(all)
+			if err != nil {
+				res.Mismatch(lib.Mismatch{Sig: "driver-died", Input: family, Model: err.Error()})
+				a = nil
+			}
+			answers[v] = a
+		}
+	}
+	cmp := func(sig string, c *StateCase, ans []string, off int, impl trace) {
+		if ans == nil || impl.Err != "" {
+			return
+		}
+		for n := range c.Blocks {
+			a := ans[off+1+n]
+			res.Compared(1)
+			if a == "rejected" {
+				res.Mismatch(lib.Mismatch{Sig: sig + "-model-rejects", Input: c, Model: a, Impl: at(impl.Roots, n)})
+				return
+			}
+			v, err := evalTerm(a)
+			if err != nil || feltHex(&v) != at(impl.Roots, n) {
+				res.Mismatch(lib.Mismatch{Sig: sig, Input: c, Model: feltHex(&v) + " = " + clip(a), Impl: at(impl.Roots, n)})
+				return
+			}
+		}
+	}
 	for i, c := range cases {
 		o := outs[i]
+		if drv != nil {
+			cmp("state-root", c, answers[0], offs[i], o.nw)
+			cmp("deprecatedstate-root", c, answers[1], offs[i], o.old)
+		}
 		key, _ := json.Marshal(c)
 		res.Case(string(key), len(c.Blocks) >= 2)
 		res.Hit("family:" + family)
@@ -487,40 +634,40 @@ func checkStateCases(f lib.Flags, res *lib.Result, drv *lib.Driver, cases []*Sta
 		}
 		// new backend
 		if o.nw.Err != "" {
-			res.Violate(lib.Violation{Sig: "state-update-fails-on-valid-history", What: "core/state: " + o.nw.Err,
-				Replay: rep(func(c *StateCase) bool { return runNewState(c).Err != "" })})
+			violateOnce(res, "state-update-fails-on-valid-history", func() lib.Violation { return lib.Violation{Sig: "state-update-fails-on-valid-history", What: "core/state: " + o.nw.Err,
+				Replay: rep(func(c *StateCase) bool { return runNewState(c).Err != "" })} })
 		} else if d := firstDiff(o.nw.Roots, o.want); d >= 0 {
-			res.Violate(lib.Violation{Sig: "state-root-differs-from-commitment-of-state",
+			violateOnce(res, "state-root-differs-from-commitment-of-state", func() lib.Violation { return lib.Violation{Sig: "state-root-differs-from-commitment-of-state",
 				What: fmt.Sprintf("core/state root after block %d is %s, the Starknet commitment of the resulting state is %s", d, at(o.nw.Roots, d), at(o.want, d)),
 				Replay: rep(func(c *StateCase) bool {
 					w, _ := specStateTrace(c)
 					t := runNewState(c)
 					return t.Err == "" && firstDiff(t.Roots, w) >= 0
-				})})
+				})} })
 		}
 		// deprecated backend
 		if o.old.Err != "" {
-			res.Violate(lib.Violation{Sig: "deprecatedstate-update-fails-on-valid-history", What: "core/deprecatedstate: " + o.old.Err,
-				Replay: rep(func(c *StateCase) bool { return runOldState(c).Err != "" })})
+			violateOnce(res, "deprecatedstate-update-fails-on-valid-history", func() lib.Violation { return lib.Violation{Sig: "deprecatedstate-update-fails-on-valid-history", What: "core/deprecatedstate: " + o.old.Err,
+				Replay: rep(func(c *StateCase) bool { return runOldState(c).Err != "" })} })
 		} else if d := firstDiff(o.old.Roots, o.want); d >= 0 {
 			if firstDiff(o.old.Roots, o.alt) < 0 {
 				// the only deviation: a system contract whose storage became empty keeps a non-zero leaf
-				res.Violate(lib.Violation{Sig: "deprecatedstate-keeps-leaf-of-emptied-system-contract",
+				violateOnce(res, "deprecatedstate-keeps-leaf-of-emptied-system-contract", func() lib.Violation { return lib.Violation{Sig: "deprecatedstate-keeps-leaf-of-emptied-system-contract",
 					What: fmt.Sprintf("core/deprecatedstate root after block %d is %s; the commitment of the resulting state (and core/state) is %s: "+
 						"a system contract (0x1/0x2) whose storage was written and later fully zeroed keeps the leaf H(H(H(0,0),0),0) in the legacy contract trie", d, at(o.old.Roots, d), at(o.want, d)),
 					Replay: rep(func(c *StateCase) bool {
 						w, a := specStateTrace(c)
 						t := runOldState(c)
 						return t.Err == "" && firstDiff(t.Roots, w) >= 0 && firstDiff(t.Roots, a) < 0
-					})})
+					})} })
 			} else {
-				res.Violate(lib.Violation{Sig: "deprecatedstate-root-differs-from-commitment-of-state",
+				violateOnce(res, "deprecatedstate-root-differs-from-commitment-of-state", func() lib.Violation { return lib.Violation{Sig: "deprecatedstate-root-differs-from-commitment-of-state",
 					What: fmt.Sprintf("core/deprecatedstate root after block %d is %s, the Starknet commitment of the resulting state is %s", d, at(o.old.Roots, d), at(o.want, d)),
 					Replay: rep(func(c *StateCase) bool {
 						w, a := specStateTrace(c)
 						t := runOldState(c)
 						return t.Err == "" && firstDiff(t.Roots, w) >= 0 && firstDiff(t.Roots, a) >= 0
-					})})
+					})} })
 			}
 		}
 	}
